@@ -26,6 +26,7 @@ WORLDS = {  # name -> (Items, InitStates, layers)
     "mx": ("ItemsMX", "InitsMX", ("rds", "rrset")),
     "ns": ("ItemsNS", "InitsNS", ("rds", "rrset")),
     "generic": ("ItemsGeneric", "InitsGeneric", ("rds", "rrset")),
+    "dyn": ("ItemsDyn", "InitsDyn", ("rds", "rrset")),
     "cname": ("ItemsCNAME", "InitsCNAME", ("rds", "rrset")),
     "soa": ("ItemsSOA", "InitsSOA", ("rds", "rrset")),
     "mixed": ("ItemsMixed", "InitsMixed", ("rds", "rrset")),
@@ -45,6 +46,7 @@ COMMON = """CONSTANTS
   SingletonTypes <- AllSingletonTypes
   SigTypes <- AllSigTypes
   MaxIndex = 3
+  DynTypes = {dyn}
 """
 
 
@@ -53,7 +55,8 @@ def tset(xs):
 
 
 def mc_cfg(ctx, name, items, inits, depth, handles="{1, 2, 3}", props=True):
-    text = "INIT Init\nNEXT MCNext\n" + COMMON.format(handles=handles, items=items, inits=inits)
+    text = "INIT Init\nNEXT MCNext\n" + COMMON.format(handles=handles, items=items, inits=inits,
+                                                      dyn='{"DYN"}' if items == "ItemsDyn" else "{}")
     text += "  MaxDepth = %d\n" % depth
     text += "".join("INVARIANT %s\n" % i for i in INVARIANTS)
     if props:
@@ -64,9 +67,11 @@ def mc_cfg(ctx, name, items, inits, depth, handles="{1, 2, 3}", props=True):
 
 def gen_cfg(ctx, name, world, *, maxlen, inits=None, gin=ALL_IN, gcopy=ALL_COPY, freeze=True,
             spellings=("method", "op", "op2", "list"), handles=(1, 2, 3), sources=(1, 2, 3), ttlargs=(0, 300, 600),
-            thin=1):
+            thin=1, register=None):
     items, winits, _ = WORLDS[world]
-    text = "INIT GInit\nNEXT GNext\n" + COMMON.format(handles="{1, 2, 3}", items=items, inits=inits or winits)
+    text = "INIT GInit\nNEXT GNext\n" + COMMON.format(handles="{1, 2, 3}", items=items, inits=inits or winits,
+                                                      dyn='{"DYN"}' if world == "dyn" else "{}")
+    text += "  GenRegister = %s\n" % ("TRUE" if (world == "dyn" if register is None else register) else "FALSE")
     text += "  MaxLen = %d\n  GenIn = %s\n  GenCopy = %s\n  GenFreeze = %s\n  Spellings = %s\n  GenHandles = %s\n  GenSources = %s\n  GenTtlArgs = %s\n  Thin = %d\n" % (
         maxlen, tset(gin), tset(gcopy), "TRUE" if freeze and world != "set" else "FALSE", tset(spellings), tset(handles),
         tset(sources), tset(ttlargs), thin)
@@ -246,6 +251,14 @@ def generate_sets(ctx, quick):
                                               handles=(1, 2), sources=(1, 2) if quick else (1, 2, 3),
                                               inits=init2[w],
                                               ttlargs=(300,) if quick else (0, 600))))
+    # G-dyn: run-time registration of a type, before or after its first use: all sequences of three
+    # calls over {add to handle 1/2, register as singleton / as ordinary type}, and all pairs over
+    # the merging calls + register from a state in which the type is already in use
+    plan.append(("dyn", "gd3_dyn.cfg", dict(maxlen=3, gin=["add"], gcopy=[], freeze=False, spellings=("method",),
+                                            handles=(1, 2), ttlargs=() if quick else (300,))))
+    plan.append(("dyn", "gd2_dyn.cfg", dict(maxlen=2, gin=["update", "union", "sym"], gcopy=["union", "build"], freeze=False,
+                                            spellings=("method",), handles=(1, 2), sources=(1, 2, 3), ttlargs=(300,),
+                                            inits="InitsDyn2")))
     if not quick:
         # G2b: three calls, in-place methods on two handles, one TTL
         for w in ("mx", "cname"):
